@@ -169,7 +169,7 @@ PROPS.update({
         rule="sender/receiver pairs with one channel each (both directions used) x metrics menu x offer schedules; distinct = distinct program "
              "hash; non-trivial = at least one offer met a busy channel",
         fault_probes=["dropped_busy", "dropped_queue_full", "queued"],
-        expected_probes=["dropped_busy", "dropped_queue_full", "queued", "offer_ties_with_end_of_transmission"],
+        expected_probes=["dropped_busy", "dropped_queue_full", "queued", "offer_ties_with_end_of_transmission", "sender_panicked_after_offering"],
         assumptions=["message loss is injected through busy Drop channels and byte-bounded queues", "sampled, not exhaustive"]),
     "C08": net_prop(
         level_text="Seeded exploration: gate chains of 1..16 hops over 2..8 modules built from connect calls in random order and orientation "
@@ -203,7 +203,7 @@ PROPS.update({
         rule="processing stacks x event kinds x message sequences; distinct = distinct program hash; non-trivial = a stack of >= 2 elements, "
              ">= 1 consumed message and >= 1 non-message event",
         fault_probes=["message_consumed_by_element"],
-        expected_probes=["message_consumed_by_element", "bracket_checked"],
+        expected_probes=["message_consumed_by_element", "bracket_checked", "emission_delivery_checked", "element_requested_shutdown"],
         assumptions=["sampled, not exhaustive"]),
 })
 
@@ -253,7 +253,7 @@ PROPS.update({
         rule="body types x operation sequences x loss faults; distinct = distinct program hash; non-trivial = >= 1 clone, >= 1 failed cast and "
              ">= 1 message lost to a fault",
         fault_probes=["message_lost_to_fault", "failed_cast", "wrong_type_access"],
-        expected_probes=["message_lost_to_fault", "failed_cast", "wrong_type_access", "clone", "try_clone", "successful_cast", "length_vs_channel_time_checked"],
+        expected_probes=["message_lost_to_fault", "failed_cast", "wrong_type_access", "clone", "try_clone", "successful_cast", "length_vs_channel_time_checked", "busy_period_vs_length_checked"],
         assumptions=["sampled, not exhaustive"]),
     "C20": net_prop(
         engine="net+asy",
